@@ -9,7 +9,7 @@ for f in sorted(glob.glob(os.path.join(HERE, "seeded", "*", "meta.json"))):
     fired = m.get("checks_fired", {})
     v = []
     for p, d in sorted(fired.items()):
-        rules = sorted({re.search(r"\[([A-Za-z0-9_.\-]+)\]", r).group(1) for r in d["reports"] if re.search(r"\[([A-Za-z0-9_.\-]+)\]", r)})
+        rules = sorted({m_ for r in d["reports"] for m_ in re.findall(r"\[([A-Z][A-Za-z0-9]*(?:\.[A-Za-z0-9_\-.]+)?)\]", r) if len(m_) > 1 and (m_.isupper() or "." in m_)})
         v.append("%s%s: %s" % (p, "" if d["exit"] == 1 else " (inconclusive)", ", ".join(rules[:3]) or "-"))
     first = ""
     notes = m.get("needs_to_manifest", "")
